@@ -24,12 +24,14 @@ import numpy as np
 from sim import oracles as orc
 from sim import scenes
 from sim.core import Prng, Sim, Verdict, mix
+from sim.identity import IdentitySeam
 
 PROP = "C03"
 ENGINE = "fakemp"
 LEVEL = "exploration"
 BUDGET = dict(quick=100.0, thorough=1500.0)
 BATCH = 4
+CHURN_CYCLES = 6
 RULE = (
     "cases = seeded scenes (4 cached catalogs on shared centres, 2-6 patches, random binning, closed side, "
     "scales, weights, subsets of random catalogs) x variants (worker count, schedule policy/seed).  One "
@@ -44,7 +46,7 @@ ASSUMPTIONS = [
     "simulation adds is the schedule quantifier (sample index k <-> patch index k under every completion order)",
     "per-patch pair counts themselves are taken from the sequential run of the real kernels (C01 is not claimed)",
 ]
-PROBES = ["imap_completion_out_of_order", "landy_szalay", "davis_peebles", "nan_bins", "redshiftdata_with_auto", "redshiftdata_with_unk_auto", "exactly_zero_leave_one_out_normalisation"]
+PROBES = ["imap_completion_out_of_order", "landy_szalay", "davis_peebles", "nan_bins", "redshiftdata_with_auto", "redshiftdata_with_unk_auto", "exactly_zero_leave_one_out_normalisation", "identities_recycled"]
 REAL_VS_STUB = dict(
     real="yaw measurements, paircounts/corrfunc/corrdata/redshifts algebra, trees, numpy einsum",
     stub="multiprocessing.Pool (sim.fakemp), _num_processes",
@@ -76,6 +78,7 @@ def gen_cases(tier: str, verif_seed: int, runs: int | None = None) -> list[dict]
                 randoms=prng.choice([["rref", "runk"], ["runk"], ["rref"]]),
                 count_rr=prng.chance(2, 3),
                 variants=variants,
+                identity=prng.choice(["fifo", "lifo", "random", "fifo"]),
             )
         )
     return cases
@@ -166,8 +169,16 @@ def _workload(case: dict, paths: dict, max_workers, out: dict) -> None:
     # measurements a few times; every repetition must reproduce the first sampling bit for bit
     del cross, auto, hist
     rk_ = dict(rk)
+    with IdentitySeam(case.get("identity", "fifo"), seed=case["scene"]["data_seed"]) as ident:
+        _repeat_and_churn(case, config, cats, rk_, kw, out)
+    out["identity.recycled"] = ident.recycled
+
+
+def _repeat_and_churn(case: dict, config, cats: dict, rk_: dict, kw: dict, out: dict) -> None:
+    import yaw
+
     first: dict = {}
-    for rep in range(3):
+    for rep in range(2):
         for label in ("cross", "auto"):
             if label == "cross":
                 cfs = yaw.crosscorrelate(config, cats["ref"], cats["unk"], **rk_, **kw)
@@ -181,6 +192,33 @@ def _workload(case: dict, paths: dict, max_workers, out: dict) -> None:
                 out.setdefault("repeat_mismatch", []).append(f"{label} repetition {rep}: {orc.states_equal(first[label], st)}")
     out["repeat.cross"] = first["cross"]
     out["repeat.auto"] = first["auto"]
+    # the same for object identity: equal-shaped but different measurements are copied (deepcopy or
+    # pickle round trip), sampled and released in turn, so that CPython hands the addresses of released
+    # objects to the next copy; each copy must sample exactly like its original
+    import pickle
+
+    srcs = []
+    for label in ("cross", "auto"):
+        if label == "cross":
+            cfs = yaw.crosscorrelate(config, cats["ref"], cats["unk"], **rk_, **kw)
+        else:
+            cfs = yaw.autocorrelate(config, cats["ref"], cats["rref"], count_rr=case["count_rr"], **kw)
+        srcs.extend((f"{label}[{i}]", cf) for i, cf in enumerate(cfs))
+        del cfs
+    ref_states = {name: orc.sampled_state(pickle.loads(pickle.dumps(cf)).sample()) for name, cf in srcs}
+    for cycle in range(CHURN_CYCLES):
+        for j, (name, cf) in enumerate(srcs):
+            twin = copy.deepcopy(cf) if (cycle + j) % 2 else pickle.loads(pickle.dumps(cf))
+            st = orc.sampled_state(twin.sample())
+            del twin
+            msg = orc.states_equal(ref_states[name], st)
+            if msg is not None:
+                out.setdefault("repeat_mismatch", []).append(f"copy of {name}, cycle {cycle}: {msg}")
+                break
+        if out.get("repeat_mismatch"):
+            break
+    out["churn.ref"] = ref_states
+    out["churn.first"] = {name: orc.sampled_state(cf.sample()) for name, cf in srcs}
 
 
 def _cov_problems(samples: np.ndarray, cov: np.ndarray, err: np.ndarray, label: str) -> str | None:
@@ -257,6 +295,8 @@ def evaluate(case: dict, ref: dict, got: dict, cache_ref: dict) -> tuple[dict | 
                     f"{kind}[{i}].sample().samples differ from leave-one-out values (row permutation: {perm})",
                     probes,
                 )
+    if got.get("identity.recycled"):
+        probes["identities_recycled"] = 1
     # (a') repeated build/sample/release cycles reproduce the first sampling, which is the one checked above
     if got.get("repeat_mismatch"):
         return sig("repeated_measurement", "result_depends_on_earlier_measurements"), "; ".join(got["repeat_mismatch"][:3]), probes
@@ -264,6 +304,12 @@ def evaluate(case: dict, ref: dict, got: dict, cache_ref: dict) -> tuple[dict | 
         msg = orc.states_equal(got[f"{kind}.sample"], got[f"repeat.{kind}"])
         if msg:
             return sig("repeated_measurement", "result_depends_on_earlier_measurements"), f"{kind}: sampling after release of earlier measurements differs: {msg}", probes
+    for kind in ("cross", "auto"):
+        for i, st0 in enumerate(got[f"{kind}.sample"]):
+            for which in ("churn.ref", "churn.first"):
+                msg = orc.states_equal(st0, got[which][f"{kind}[{i}]"])
+                if msg:
+                    return sig("repeated_measurement", "result_depends_on_earlier_measurements"), f"{which} {kind}[{i}]: {msg}", probes
     # (b) RedshiftData
     dz = np.diff(np.asarray(scene["edges"], dtype="f8"))
     for i, (c, a) in enumerate(zip(ref["cross"], ref["auto"])):
